@@ -1,8 +1,9 @@
 (** C09 - No configuration, message or schedule can crash or wedge the engine (non-kernel parts).
     This file contains only statements closed by [exact] plus [Print Assumptions]. *)
-From Coq Require Import List NArith String.
+From Coq Require Import List NArith ZArith String.
 From GV Require Import Base.Ints Gen.Mappers Monitors.C09m Proofs.Mappers.
 From GV Require Import Model.OptTypes Model.Options Gen.Options Proofs.Options.
+From GV Require Import Model.Registry Gen.Registry Proofs.Registry.
 Import ListNotations.
 Local Open Scope N_scope.
 
@@ -64,3 +65,14 @@ Theorem C09_rejected_value_named : forall chain_init opts n a,
   (exists rep, run_ctor ctor_NewMirror option_table chain_init opts = CError rep /\ In n rep).
 Proof. exact rejected_value_named. Qed.
 Print Assumptions C09_rejected_value_named.
+
+(** (iii) gcrypto Registry.Unmarshal: total on EVERY byte string and every set of registered prefixes. *)
+Theorem C09_registry_unmarshal_total : forall known b,
+  exists o, unmarshal unmarshal_len_guard registry_prefix_size known b = Ok o.
+Proof. exact registry_unmarshal_total. Qed.
+Print Assumptions C09_registry_unmarshal_total.
+
+Theorem C09_registry_short_input_is_an_error : forall known b, Z.lt (blen b) registry_prefix_size ->
+  unmarshal unmarshal_len_guard registry_prefix_size known b = Ok UErrShort.
+Proof. exact short_input_is_an_error. Qed.
+Print Assumptions C09_registry_short_input_is_an_error.
